@@ -10,6 +10,7 @@ from collections import OrderedDict
 
 from .. import rig  # noqa: F401
 from .. import gen
+from . import trapview
 from ..rig import OID, World, drive, drive_agen, oid_s, oid_t, to_tuple
 from puresnmp.util import BulkResult
 from puresnmp.varbind import PyVarBind
@@ -376,7 +377,25 @@ def odd_values(R):
                 R.mon["odd_value_results_builtin"] += 1
 
 
+def trap_views(R):
+    """TrapInfo - the pythonic view of a received notification, defined in the same module
+    as the wrapper: its values are built-in types and the element-wise pythonisation of the
+    raw bindings, whatever value types (TimeTicks, payload named like a leading binding) the
+    notification carries."""
+    rng = R.rng("trapviews")
+    for i in range(260):
+        n = rng.choice((0, 1, 2, 3, 6, 11))
+        payload = [((1, 3, 6, 1, 4, 1, 4242, 2, j), gen.gen_value(rng)) for j in range(n)]
+        if payload and i % 3 == 0:
+            payload[rng.randrange(n)] = rng.choice(((trapview.UPTIME, ("tt", rng.choice((0, 9, 2**32 - 1)))), (trapview.TRAPOID, ("oid", (1, 3, 6, 1, 4, 1, 4242, 0, 99))), ((1, 3, 6, 1, 4, 1, 4242, 3, i), ("tt", rng.choice((0, 1, 100, 2**31, 2**32 - 1))))))
+        vbs = [(trapview.UPTIME, ("tt", rng.choice((0, 1, 4242, 2**31, 2**32 - 1)))), (trapview.TRAPOID, ("oid", (1, 3, 6, 1, 4, 1, 4242, 0, i)))] + payload
+        R.case(("c15-trapview", tuple(sorted({v[0] for _, v in payload}))), True)
+        trapview.judge(R, vbs, "trapinfo_views_checked")
+
+
 def run(R):
+    if R.shard == 0:
+        trap_views(R)
     if R.shard == 1 % R.nshards:
         odd_values(R)
         renamed_set(R)
@@ -433,6 +452,9 @@ def run(R):
 
 
 def replay(R, v):
+    if v["case"].get("op") == "trapview":
+        trapview.judge(R, trapview.vbs_of(v["case"]), "trapinfo_views_checked")
+        return
     if str(v["case"].get("op", "")).startswith("odd:"):
         odd_values(R)
         return
